@@ -451,6 +451,7 @@ def run(chk):
         if rr["reused"]:
             chk.fail("C09:pool-index-reused", f"real {name} run: {rr['reused']} pool points handed out twice", {"kind": "real", "case": c})
         for pl in rr["pools"]:
+            chk.count(f"real:{name}:pool:{pl.get('cls', 'ImportanceFlowProposal.draw')}")
             if c["sampler"] == "ins":
                 okp = pl["size"] == pl["requested"]
             elif pl["cls"] in ("FlowProposal", "AugmentedFlowProposal", "AnalyticProposal"):
